@@ -18,6 +18,13 @@ var propSpecs = map[string]*PropSpec{}
 // rules whose verdict depends on an interprocedural call graph (thorough: VTA vs CHA cross-check)
 var ruleUsesCallGraph = map[string]bool{}
 
+// chaIncomparable: call-graph rules whose verdicts cannot be compared between VTA and CHA,
+// one reason each. For these the thorough tier checks instead that VTA drops no call site.
+var chaIncomparable = map[string]string{
+	"R-ATOMIC":                "the rule asks which functions run concurrently with a goroutine; CHA resolves every call of a func-typed value (rule closures, cobra callbacks) to every function of that signature, so initialisation code looks goroutine-reachable",
+	"R-PUBLISH-BEFORE-CANCEL": "same goroutine-reachability notion as R-ATOMIC",
+}
+
 func addProp(ps *PropSpec) { propSpecs[ps.ID] = ps }
 
 var commonAssumptions = []string{
